@@ -7,18 +7,18 @@ IMP_RULE = ('each case: a source history of 1..10 operations generated online on
             '12 equal/different flags (source vs copy) after every accepted import, complete final state of the copy. non-trivial = source with >= 2 logs. '
             'Reverts are forced in this tie (Core.v models the nil-map panic of a non-forced revert more strictly than the real GetBalances behaves on some multi-asset inputs).')
 IMP_TRUST = HIST_TRUST + ['hash column in the extracted model: H = identity over a length-prefixed rendering of the fields of the real pre-image (collision-free stand-in for SHA-256; the theorems hold for every H)']
-IMP_NOTE = ('Trusted: Coq kernel; extraction; pgsem; the Go harness. Model Ledger/Import.v layered on Ledger/Core.v. Accounts (address, current metadata, insertion date) without the no-account-metadata-operation hypothesis are compared by the tie only.')
+IMP_NOTE = ('Trusted: Coq kernel; extraction; pgsem; the Go harness. Model Ledger/Import.v layered on Ledger/Core.v. ')
 
 PROPS['C11'] = dict(
     target='Props/C11',
-    theorems=['C11_roundtrip', 'C11_tx_core_fields', 'C11_roundtrip_moves', 'C11_roundtrip_accounts_partial', 'C11_roundtrip_tables_partial', 'C11_hashes_roundtrip', 'C11_hash_check_sound', 'C11_writable_single', 'C11_resync_above', 'C11_refuted_first_usage', 'C11_refuted_updated_at',
+    theorems=['C11_roundtrip', 'C11_tx_core_fields', 'C11_av_fields', 'C11_roundtrip_moves', 'C11_roundtrip_accounts_partial', 'C11_roundtrip_tables_partial', 'C11_hashes_roundtrip', 'C11_hash_check_sound', 'C11_writable_single', 'C11_resync_above', 'C11_refuted_first_usage', 'C11_refuted_updated_at',
               'C11_writable_atomic', 'C11_atomic_after_import_next_ids', 'C11_atomic_after_import_log_order', 'C11_unrepaired_atomic_writable', 'C11_unrepaired_atomic_log_id'],
     ties=[dict(name='TIE-D importx', vh='importx', model='importx', n=dict(quick=400, thorough=10000), kinds=['C11'], case_head='importx', timeout=dict(quick=600, thorough=6000))],
     rule=IMP_RULE,
     explanation='PROVED for every feature set, history, hash function and import time (C11_roundtrip, per-log simulation of importLog against Core.step + induction over the history + C09 chain invariant): '
                 'the import of the export into the pristine ledger is accepted, leaves it initializing and reproduces volumes, every column of the transactions table except effective volumes (ids, postings, current metadata, '
-                'timestamps, references, inserted_at, updated_at, reverted_at, post-commit volumes), the transaction metadata history, the logs and the hash column. Under hypotheses: moves table + effective volumes when the history has no dry run or MOVES_HISTORY is off '
-                '(C11_roundtrip_moves; otherwise only moves.seq is renumbered, compared modulo seq by the tie); accounts table + account metadata history when the history has no SET/DELETE_METADATA on accounts '
+                'timestamps, references, inserted_at, updated_at, reverted_at, post-commit volumes), the transaction metadata history, the logs, the hash column and, of every account row, address, current metadata and insertion date. Under hypotheses: moves table + effective volumes when the history has no dry run or MOVES_HISTORY is off '
+                '(C11_roundtrip_moves; otherwise only moves.seq is renumbered, compared modulo seq by the tie); first usage / updated_at of accounts (the whole accounts table) + account metadata history when the history has no SET/DELETE_METADATA on accounts '
                 '(C11_roundtrip_accounts_partial); all tables identical under both (C11_roundtrip_tables_partial). FULL statement REFUTED without the accounts hypothesis, confirmed on the real stack (known_findings.d/import.json): '
                 'SET_METADATA on an account lowers first_usage to the log date (C11_refuted_first_usage), DELETE_METADATA on an account is dated at the import in updated_at and in the metadata history (C11_refuted_updated_at). '
                 'Writability: first committed facade write flips the state and draws log id = max+1 and transaction id = max+1 (C11_writable_single; bulk elements are such writes); the ATOMIC bulk follows the same protocol since the repair fixes/01-facade-begintx (C11_writable_atomic: a one-element atomic bulk IS the facade write). '
